@@ -13,7 +13,7 @@ CHECKS = {
     "C01": dict(cat="translation_validation", tech="Lean 4: verified simulation checker (verifySim_sound) run on real outputs of every stage",
                 text="Every stage output of the real pipeline is exported and a Lean decider checks a simulation between the input graph and the "
                      "hierarchy for both walks; Scfg.C01.name_walk_sound / region_walk_sound (kernel-checked) turn one successful check into "
-                     "trace equality for ALL decision sequences of any length.", ref="§7 C01"),
+                     "trace equality for ALL decision sequences of any length. For the first stage the property is also a theorem about the model (Props/C01Join.lean): Scfg.C01.joinReturns_preserves_paths - for EVERY flat graph of original blocks with unique names and no dangling target, the hierarchy the model of join_returns produces shows, from every block, the input graph's trace under every decision sequence (closed_paths: 'same block, empty valuation' is a simulation; the pipeline model is compared stage by stage with the code in C02). Scfg.C04.walks_coincide links the two walks for every self-consistent hierarchy.", ref="§7 C01"),
     "C02": dict(cat="translation_validation", tech="Lean 4 executable model of the whole restructuring pipeline (abort sites included) compared dump-for-dump with the real result of every stage; exhaustive small-scope runs of the real pipeline under a timer",
                 text="The real pipeline is run on every closed CFG of the exhaustive scope and on seeded larger ones under a per-stage timer; any exception or time-out is a violation with the graph as replay. "
                      "Scfg/Model/Pipeline.lean models join_returns, loop_restructure_helper, extract_region, update_exiting, restructure_branch and their helpers on the flat hierarchy including every assertion / KeyError site; after every stage the real hierarchy (names, dict order per container, tables, assignments, name-generator counters) must equal the model's.", ref="§7 C02",
